@@ -469,6 +469,15 @@ def build_statusline(data: dict) -> str:
     return " | ".join(parts)
 
 
+def emit(line: str) -> None:
+    """Print the line; what stdout's encoding cannot carry (a lone surrogate) is replaced."""
+    try:
+        print(line)
+    except UnicodeEncodeError:
+        encoding = sys.stdout.encoding or "utf-8"
+        print(line.encode(encoding, "replace").decode(encoding, "replace"))
+
+
 def main():
     log.info("main_start")
     try:
@@ -481,12 +490,12 @@ def main():
     cached = get_cached(session_id)
     if cached:
         log.info("main_served_cached", session_id=session_id)
-        print(cached)
+        emit(cached)
         return
     output = build_statusline(data)
     set_cache(session_id, output)
     log.info("main_built_fresh", session_id=session_id)
-    print(output)
+    emit(output)
 
 
 if __name__ == "__main__":
